@@ -13,8 +13,11 @@ p = os.path.join(d, "meta.json")
 if os.path.exists(p):
     old = json.load(open(p))
 tests = m.group(3)
+ov = os.environ.get("TESTS_OVERRIDE")
 if tests == "skipped" and old.get("confirmed", {}).get("existing_tests") not in (None, "skipped"):
     tests, tcmd = old["confirmed"]["existing_tests"], old["confirmed"]["tests_cmd"]
+elif tests == "skipped" and ov:
+    tests, tcmd = ov.split("|", 1)
 else:
     tcmd = m.group(4)
 meta = {"seed": sid, "property": prop, "files": agent.get("files"), "what": agent.get("what"),
